@@ -154,7 +154,7 @@ func genCtrlCase(rt *rapid.T, o ctrlGenOpts) ctrlCase {
 	}
 	nops := rapid.IntRange(3, o.MaxOps).Draw(rt, "nops")
 	for i := 0; i < nops; i++ {
-		k := rapid.IntRange(0, 29).Draw(rt, "opK")
+		k := rapid.IntRange(0, 31).Draw(rt, "opK")
 		if len(live) < 2 && k > 5 && k < 20 {
 			k = 0
 		}
@@ -231,6 +231,22 @@ func genCtrlCase(rt *rapid.T, o ctrlGenOpts) ctrlCase {
 				}
 				c.Ops = append(c.Ops, ctrlOp{Kind: "step", Pick: rapid.IntRange(0, 7).Draw(rt, "macroPick")})
 			}
+			op.Kind = "settle"
+		case k >= 30 && o.Faults && len(live) < 7:
+			// scenario: the status write of a fresh choice fails and the service changes before the retry
+			// (re-typed away from LoadBalancer, other request, other ports ...)
+			sp := vw.GenSvc(rt, next, 2, poolNames(cur))
+			sp.Type = vw.TypeLoadBalancer
+			next++
+			live = append(live, sp)
+			c.Ops = append(c.Ops, ctrlOp{Kind: "settle"}, ctrlOp{Kind: "failwrites", Fail: []bool{true}}, ctrlOp{Kind: "create", Spec: &sp}, ctrlOp{Kind: "step", Pick: 0})
+			ch := vw.MutateSvc(rt, sp, 2, poolNames(cur))
+			if rapid.Bool().Draw(rt, "retype") {
+				ch = sp
+				ch.Type = vw.TypeClusterIP
+			}
+			live[len(live)-1] = ch
+			c.Ops = append(c.Ops, ctrlOp{Kind: "update", Svc: len(live) - 1, Spec: &ch})
 			op.Kind = "settle"
 		case k <= 27 && o.Crash:
 			op.Kind = "crash"
@@ -1523,7 +1539,15 @@ func TestVerifC06Ctrl(t *testing.T) {
 }
 
 func TestVerifC07Ctrl(t *testing.T) {
-	vw.Run(t, vw.Options{Property: "C07", Engine: "controller", Rule: ctrlRule + "; at every quiescence an independent search over the CRs and the recorded statuses decides whether a pending service has an admissible assignment; finite sequences of failing status writes and reads are part of the histories; non-trivial = a service was pending at quiescence", Assumptions: ctrlAssumptions},
+	vw.Run(t, vw.Options{Property: "C07", Engine: "controller", Rule: ctrlRule + "; at every quiescence an independent search over the CRs and the recorded statuses decides whether a pending service has an admissible assignment; non-trivial = a service was pending at quiescence", Assumptions: ctrlAssumptions},
+		func(rt *rapid.T) ctrlCase { return genCtrlCase(rt, ctrlGenOpts{Sched: true}) },
+		func(c ctrlCase, tr *vw.Trace) *vw.Violation { return runCtrl(c, tr, judgeSet{C07: true}) })
+}
+
+// The same with finite sequences of failing status writes and reads in the histories (a release whose status
+// write fails must still reach the services waiting for the address).
+func TestVerifC07CtrlFaults(t *testing.T) {
+	vw.Run(t, vw.Options{Property: "C07", Engine: "controller-faults", Rule: ctrlRule + ", finite sequences of failing status writes and reads; the same search at every quiescence; non-trivial = a service was pending at quiescence", Assumptions: ctrlAssumptions},
 		func(rt *rapid.T) ctrlCase { return genCtrlCase(rt, ctrlGenOpts{Sched: true, Faults: true}) },
 		func(c ctrlCase, tr *vw.Trace) *vw.Violation { return runCtrl(c, tr, judgeSet{C07: true}) })
 }
